@@ -169,6 +169,21 @@ func (r *Run) check(only, dump string) int {
 			r.Assume[a] = true
 		}
 	}
+	// trusted contracts of the packages involved that no call site used: most likely a mistyped key
+	if only == "" {
+		pkgsSeen := map[string]bool{}
+		for _, c := range contracts {
+			pkgsSeen[c.PkgPath] = true
+		}
+		for p := range pkgsSeen {
+			for k, c := range r.Prog.Contracts[p].Funcs {
+				if c.Trusted && !c.Used && r.Eng.frame.usedTrustedFrames[k] == false {
+					r.Notes = append(r.Notes, "trusted contract never applied (check its key): "+shortFuncName(k)+" in "+c.File)
+				}
+			}
+		}
+		sort.Strings(r.Notes)
+	}
 	if r.Spec.Extra != nil && only == "" {
 		if err := r.Spec.Extra(r); err != nil {
 			fmt.Fprintln(os.Stderr, "BROKEN: property generator failed:", err)
@@ -240,14 +255,27 @@ func (r *Run) report(all []*Obligation, unbound, engErrs []string) int {
 			o.Name = fmt.Sprintf("%s~%d", o.Name, seen[o.Name])
 		}
 	}
+	retTotal, retUnreach := map[string]int{}, map[string]int{}
 	for _, o := range all {
 		solverMs += o.Ms
 		if o.ExpectSat {
 			covers++
+			if strings.Contains(o.Name, "/cover-return#") {
+				retTotal[o.Func]++
+			}
 			if o.Answer == "sat" {
 				coversSat++
 			} else if o.Answer == "unsat" {
-				broken = append(broken, fmt.Sprintf("cover %s is unreachable (contradictory contract or translation bug)", o.Name))
+				// an unreachable function entry is a contradictory contract (the check is broken); an unreachable
+				// return or loop body may be dead code, and is reported, unless nothing in the function is reachable
+				if strings.HasSuffix(o.Name, "/cover-pre") {
+					broken = append(broken, fmt.Sprintf("cover %s is unreachable (contradictory requires/invariants)", o.Name))
+				} else {
+					if strings.Contains(o.Name, "/cover-return#") {
+						retUnreach[o.Func]++
+					}
+					r.Notes = append(r.Notes, "unreachable in the model (dead code, or an over-strong contract): "+o.Name+" at "+o.Pos)
+				}
 			} else {
 				// unknown cover: not counted as reachable, not fatal
 				r.Notes = append(r.Notes, "cover undecided: "+o.Name)
@@ -280,6 +308,11 @@ func (r *Run) report(all []*Obligation, unbound, engErrs []string) int {
 		}
 		fmt.Printf("VIOLATION property=%s replay=%s obligation=%s answer=%s%s\n", r.Prop, path, o.Name, o.Answer, suffix)
 		exit = 1
+	}
+	for f, n := range retTotal {
+		if n > 0 && retUnreach[f] == n {
+			broken = append(broken, fmt.Sprintf("no return of %s is reachable (contradictory contract or translation bug)", f))
+		}
 	}
 	for _, u := range unbound {
 		fmt.Printf("UNDECIDED property=%s %s\n", r.Prop, u)
@@ -317,7 +350,7 @@ func (r *Run) report(all []*Obligation, unbound, engErrs []string) int {
 	trusted = append(trusted, tframes...)
 	trusted = append(trusted, r.Spec.TrustedBase...)
 	trusted = append(trusted, "govc translation of the Go subset (DESIGN.md §3.4)", "go/types", "z3 4.8.12 / z3 5.1.0 / cvc5 1.0.3")
-	assumptions := []string{"integers are mathematical in mode int (no overflow obligations)", "no-panic obligations are generated only in functions marked safe; elsewhere a nil dereference ends the path (a panicking execution reaches no later return or sink) and other panics are not modelled", "sequential semantics (no interleaving)", "slices have value semantics (aliasing through shared backing arrays is not modelled)"}
+	assumptions := []string{"integers are mathematical in mode int (no overflow obligations)", "no-panic obligations are generated only in functions marked safe; elsewhere a nil dereference ends the path (a panicking execution reaches no later return or sink) and other panics are not modelled", "sequential semantics (no interleaving)", "slices have value semantics (aliasing through shared backing arrays is not modelled)", "library decoders (encoding/*, fmt.Sscan*, database/sql Scan) write through the pointers they are given during the call and do not keep them"}
 	var as []string
 	for a := range r.Assume {
 		as = append(as, a)
@@ -325,6 +358,16 @@ func (r *Run) report(all []*Obligation, unbound, engErrs []string) int {
 	sort.Strings(as)
 	assumptions = append(assumptions, as...)
 	assumptions = append(assumptions, r.Spec.Assumptions...)
+
+	var slowest []sample
+	{
+		byMs := append([]*Obligation(nil), all...)
+		sort.SliceStable(byMs, func(i, j int) bool { return byMs[i].Ms > byMs[j].Ms })
+		for i := 0; i < len(byMs) && i < 6; i++ {
+			o := byMs[i]
+			slowest = append(slowest, sample{o.Name, o.Class, o.Answer, o.Backend, o.Ms, o.Bytes, o.Pos, ""})
+		}
+	}
 
 	level := r.Spec.Level
 	ev := map[string]any{
@@ -351,6 +394,7 @@ func (r *Run) report(all []*Obligation, unbound, engErrs []string) int {
 			"bounded":                  r.Bounded,
 			"notes":                    r.Notes,
 			"samples":                  samples,
+			"slowest":                  slowest,
 			"explanation":              r.Spec.Explanation,
 			"evaluations":              obligations + covers,
 			"distinct_nontrivial":      obligations,
